@@ -373,7 +373,27 @@ func newRef() *refState { return &refState{ent: map[string]*pkix.RevokedCertific
 
 func refKey(iss pkix.RDNSequence, s *big.Int) string { return iss.String() + "\x00" + s.String() }
 
+// serializable reports whether the serializer accepts the value (otherwise the write is refused with an error and
+// nothing is stored, e.g. a name that is not valid UTF-8).
+func (w c18W) serializable() bool {
+	var err error
+	switch w.kind {
+	case "start":
+		_, err = ser.SerializeMetaInfo(w.meta)
+	case "ins":
+		_, err = ser.SerializeRevokedCert(w.ent)
+	case "ext":
+		_, err = ser.SerializeMetaInfoExt(w.ext)
+	case "loc":
+		_, err = ser.SerializeCRLLocations(w.loc)
+	}
+	return err == nil
+}
+
 func (s *refState) write(v *c18Val, w c18W) {
+	if !w.serializable() {
+		return
+	}
 	switch w.kind {
 	case "start":
 		s.meta = w.meta
